@@ -22,6 +22,13 @@ Definition is_panic {E A} (r : res E A) : bool := match r with Panic _ => true |
 Definition bind {E A B} (r : res E A) (f : A -> res E B) : res E B :=
   match r with Val a => f a | Fail e => Fail e | Panic k => Panic k | OutOfFuel => OutOfFuel end.
 
+(* Reversal in linear time.  The standard library's [rev] is quadratic once
+   extracted; the models use [frev], and [frev_eq] lets every proof go back to
+   [rev] and its lemmas. *)
+Definition frev {A : Type} (l : list A) : list A := rev_append l [].
+Lemma frev_eq {A : Type} (l : list A) : frev l = List.rev l.
+Proof. unfold frev. symmetry. apply rev_alt. Qed.
+
 (* ---------- equality on text ---------- *)
 Fixpoint eqs (a b : str) : bool :=
   match a, b with
